@@ -357,7 +357,7 @@ func escapeIRI(lq, s, rq string) string {
 	buf.WriteString(lq)
 	for _, r := range s {
 		switch {
-		case r <= ' ', r == '<', r == '>', r == '"', r == '{', r == '}', r == '|', r == '^', r == '`', r == '\\':
+		case r <= ' ', r == 0x7f, r == '<', r == '>', r == '"', r == '{', r == '}', r == '|', r == '^', r == '`', r == '\\':
 			fmt.Fprintf(&buf, "\\u%04x", r)
 		case r <= unicode.MaxASCII || strconv.IsPrint(r):
 			buf.WriteRune(r)
